@@ -70,6 +70,7 @@ const seqTemplate = `
 (assert (forall ((s Seq$X) (lo Int)) (! (= (sub$X s lo lo) empty$X) :pattern ((sub$X s lo lo)))))
 (assert (forall ((s Seq$X)) (! (= (cat$X empty$X s) s) :pattern ((cat$X empty$X s)))))
 (assert (forall ((s Seq$X)) (! (= (cat$X s empty$X) s) :pattern ((cat$X s empty$X)))))
+(assert (forall ((a Seq$X) (b Seq$X) (c Seq$X)) (! (= (cat$X (cat$X a b) c) (cat$X a (cat$X b c))) :pattern ((cat$X (cat$X a b) c)))))
 (assert (forall ((s Seq$X)) (! (=> (= (len$X s) 0) (= s empty$X)) :pattern ((len$X s)))))
 (assert (forall ((a Seq$X) (b Seq$X) (lo Int) (hi Int))
   (! (=> (and (<= 0 lo) (<= lo hi) (<= hi (+ (len$X a) (len$X b))))
@@ -446,6 +447,50 @@ func (f *TermFactory) SEq(a, b *Term) *Term {
 				i++
 				j++
 				continue
+			}
+			// one segment of literal length against several segments whose literal lengths add up to it
+			if lx.ival != nil && ly.ival != nil {
+				grouped := false
+				if lx.ival.Cmp(ly.ival) > 0 {
+					sum := new(big.Int)
+					for k := j; k < len(sb); k++ {
+						lk := f.SLen(sb[k])
+						if lk.ival == nil {
+							break
+						}
+						sum.Add(sum, lk.ival)
+						if c := sum.Cmp(lx.ival); c == 0 {
+							conj = append(conj, f.rawEq(x, f.fromSegs(a.sort, sb[j:k+1])))
+							i++
+							j = k + 1
+							grouped = true
+							break
+						} else if c > 0 {
+							break
+						}
+					}
+				} else {
+					sum := new(big.Int)
+					for k := i; k < len(sa); k++ {
+						lk := f.SLen(sa[k])
+						if lk.ival == nil {
+							break
+						}
+						sum.Add(sum, lk.ival)
+						if c := sum.Cmp(ly.ival); c == 0 {
+							conj = append(conj, f.rawEq(f.fromSegs(a.sort, sa[i:k+1]), y))
+							j++
+							i = k + 1
+							grouped = true
+							break
+						} else if c > 0 {
+							break
+						}
+					}
+				}
+				if grouped {
+					continue
+				}
 			}
 			break
 		}
